@@ -2,6 +2,7 @@ package main
 
 import (
 	"fmt"
+	"reflect"
 	"go/types"
 
 	"golang.org/x/tools/go/ssa"
@@ -306,6 +307,9 @@ func (x *Exec) iteV(c *Term, a, bb Value) Value {
 	b := x.b
 	if a == bb {
 		return a
+	}
+	if a != nil && bb != nil && reflect.TypeOf(a) != reflect.TypeOf(bb) {
+		unsupported("merge of values of different kinds (%T, %T): e.g. a non-constant function value", a, bb)
 	}
 	switch p := a.(type) {
 	case *Term:
